@@ -639,7 +639,9 @@ def _run_task(c):
                    "eps": kit.f64_hex(eps), "lr": kit.f64_hex(_lr_at(c, t)), "dlr": c["dlr"],
                    "clip": (None if c["clip"] is None else kit.f64_hex(c["clip"])), "start": c["start"], "wd": kit.f64_hex(c["wd"]),
                    "dwd": c["dwd"], "nesterov": c["nesterov"], "mavg": c["mavg"], "step": t, "si": c["si"],
-                   "g": _hexes(grads[t][n]), "param": _hexes(params[n]), "stats": S0h, "preconds": [_hexes(p_) for p_ in Pused],
+                   "g": _hexes(grads[t][n]), "param": _hexes(params[n]), "stats": S0h,
+                   "preconds_before": [_hexes(p_) for p_ in v0["P"]], "preconds_after": [_hexes(p_) for p_ in v1["P"]],
+                   "sharded": sharded,
                    "diag": _hexes(v0["diag"]), "dmom": _hexes(v0["dmom"]), "mom": _hexes(v0["mom"])}
             reqs.append({"leaf": n, "t": t, "kind": "step", "req": req})
             rec["S1"] = [[float(z) for z in s_.reshape(-1)] for s_ in v1["S"]]
@@ -775,6 +777,12 @@ def compare(ctx, o, replies):
             if not ok:
                 ctx.disagree(nm, _case(o, leaf, t), [a[:4] for a in rec["S1"][:2]], [[float(z) for z in _f64s(b)[:4]] for b in ms[:2]])
         tol = rec["tol"]
+        if rep["spec"] is not None and rep["low"] is not None:
+            ok = all(rep["spec"][f_] == rep["low"][f_] for f_ in ("upd", "mom", "dmom", "diag")) and rep["pg_spec"] == rep["pg_low"] \
+                and rep["stats_spec"] == rep["stats_low"]
+            ctx.corr("model.low_eq_spec[EXACT]", ok)
+            if not ok:
+                ctx.disagree("model.low_eq_spec[EXACT]", _case(o, leaf, t), "Low", "Spec", "the two Lean models differ on this input")
         for which in ("spec", "low"):
             r = rep[which]
             if r is None:
